@@ -425,6 +425,38 @@ func splitCmpCall(l string) (string, string, bool) {
 // once in a local).
 // calleesOf is calleeOf extended to calls through an element of a package-level slice of functions
 // (for _, f := range validators { if err := f(x); err != nil { return err } }): every listed function is a callee.
+// calleesOfEnv: like calleesOf, and a call of a function-typed PARAMETER resolves to the closure or function the
+// caller passed for it (callback iterators: forEachX(txn, func(…) error { … })).
+func (ge *GuardEngine) calleesOfEnv(c *ssa.CallCommon, env *Env) []*ssa.Function {
+	if fs := ge.calleesOf(c); len(fs) > 0 {
+		return fs
+	}
+	if prm, ok := c.Value.(*ssa.Parameter); ok && env != nil {
+		for depth := 0; depth < 4; depth++ {
+			bv, ok := env.paramVals[prm]
+			if !ok || bv.v == nil {
+				return nil
+			}
+			switch x := bv.v.(type) {
+			case *ssa.MakeClosure:
+				if f, ok := x.Fn.(*ssa.Function); ok {
+					return []*ssa.Function{f}
+				}
+			case *ssa.Function:
+				return []*ssa.Function{x}
+			case *ssa.Parameter:
+				if bv.env == nil {
+					return nil
+				}
+				prm, env = x, bv.env
+				continue
+			}
+			return nil
+		}
+	}
+	return nil
+}
+
 func (ge *GuardEngine) calleesOf(c *ssa.CallCommon) []*ssa.Function {
 	if f := ge.calleeOf(c); f != nil {
 		return []*ssa.Function{f}
@@ -743,7 +775,7 @@ func (ge *GuardEngine) guardsRec(fn *ssa.Function, env *Env, chain []string, ctx
 			}
 			return
 		}
-		for _, callee := range ge.calleesOf(&call.Call) {
+		for _, callee := range ge.calleesOfEnv(&call.Call, env) {
 			if callee == nil || !ge.p.InModule(callee) {
 				continue
 			}
@@ -1058,6 +1090,11 @@ func (ge *GuardEngine) CheckReq(c *Ctx, rule string, req GuardReq, guards []Guar
 		return
 	}
 	var problems []string
+	type splitCand struct {
+		g           Guard
+		desc, where string
+	}
+	var splitCands []splitCand
 	hits := map[string]bool{}
 	okDesc, okWhere := "", ""
 	for _, cd := range cands {
@@ -1075,6 +1112,12 @@ func (ge *GuardEngine) CheckReq(c *Ctx, rule string, req GuardReq, guards []Guar
 		}
 		if why := ge.siteProblemsOpt(cd.g, ctxRes, req.LoopExitOK); why != "" {
 			problems = append(problems, fmt.Sprintf("%s: %s", where, why))
+			// remember candidates that are fine except for ONE unexpected condition: two of them under complementary
+			// conditions cover both cases (a fast path and a slow path each doing the check)
+			const pfx = "guard can be bypassed — it is only evaluated when "
+			if strings.HasPrefix(why, pfx) && !strings.Contains(strings.TrimPrefix(why, pfx), " && ") {
+				splitCands = append(splitCands, splitCand{cd.g, strings.TrimPrefix(why, pfx), where})
+			}
 			continue
 		}
 		hits[where] = true
@@ -1083,6 +1126,26 @@ func (ge *GuardEngine) CheckReq(c *Ctx, rule string, req GuardReq, guards []Guar
 		if len(hits) >= max(req.MinHits, 1) {
 			c.OK(rule, req.ID, okWhere, okDesc+"  ["+req.Clause+"]")
 			return
+		}
+	}
+	// case split: two candidates whose only unexpected conditions are each other's negation
+	for i := 0; i < len(splitCands) && max(req.MinHits, 1) == 1; i++ {
+		for j := i + 1; j < len(splitCands); j++ {
+			a, b := splitCands[i], splitCands[j]
+			if !negatedDesc(a.desc, b.desc) {
+				continue
+			}
+			okBoth := true
+			for _, sc := range []splitCand{a, b} {
+				extra := append(append([]*regexp.Regexp{}, ctxRes...), regexp.MustCompile("^"+regexp.QuoteMeta(sc.desc)+"$"))
+				if ge.siteProblemsOpt(sc.g, extra, req.LoopExitOK) != "" {
+					okBoth = false
+				}
+			}
+			if okBoth {
+				c.OK(rule, req.ID, a.where, a.g.String()+"  (where "+a.desc+") ; "+b.g.String()+"  (where "+b.desc+")  ["+req.Clause+"]")
+				return
+			}
 		}
 	}
 	if len(hits) > 0 {
@@ -1546,6 +1609,20 @@ func selfCopyThroughLiteral(fn *ssa.Function, st *ssa.Store, fa *ssa.FieldAddr) 
 		for _, rr := range *whole.Referrers() {
 			if ws, ok := rr.(*ssa.Store); ok && ws.Val == ssa.Value(whole) && ws.Addr == src.X {
 				return true
+			}
+		}
+	}
+	return false
+}
+
+// negatedDesc: a and b are the same comparison with negated operators ("x == k" / "x != k", "v is true" / "v is false").
+func negatedDesc(a, b string) bool {
+	for _, ops := range [][2]string{{" == ", " != "}, {" < ", " >= "}, {" <= ", " > "}, {" is true", " is false"}} {
+		for _, o := range [][2]string{{ops[0], ops[1]}, {ops[1], ops[0]}} {
+			if i := strings.LastIndex(a, o[0]); i >= 0 {
+				if a[:i]+o[1]+a[i+len(o[0]):] == b {
+					return true
+				}
 			}
 		}
 	}
